@@ -45,7 +45,7 @@ type scenario struct {
 	PP            bool       `json:"pp"`
 	TLS           bool       `json:"tls"`
 	Conns         []connPlan `json:"conns"`
-	Mode          string     `json:"mode"` // shutdown | expire-close | close
+	Mode          string     `json:"mode"` // shutdown | expire-close | close | close-while-shutdown
 	Late          int        `json:"late"` // connections dialled after closing has been observed
 	CloseListener bool       `json:"close_listener"`
 	Order         []int      `json:"order"`
@@ -488,6 +488,27 @@ func runScenario(sc scenario, e *env) (res result) {
 			cancel()
 			<-sdDone
 		}
+	case "close-while-shutdown":
+		// Close is called while Shutdown is still waiting: it has to wait for connsMu
+		clDone := make(chan struct{})
+		go func() { callClose(); close(clDone) }()
+		time.Sleep(30 * time.Millisecond)
+		select {
+		case <-sdDone:
+		default:
+			rig.Log.Add(gaterig.Ev{K: "CtxExpire", Conn: -1})
+			cancel()
+		}
+		select {
+		case <-sdDone:
+		case <-time.After(2 * time.Second):
+			r.stuck("Shutdown did not return after the context was cancelled")
+		}
+		select {
+		case <-clDone:
+		case <-time.After(2 * time.Second):
+			r.stuck("Close did not return after Shutdown had returned")
+		}
 	case "expire-close":
 		select {
 		case <-sdDone:
@@ -631,7 +652,7 @@ func genScenarios(tier string, r *rng.R) []scenario {
 		}
 		for _, p := range ph {
 			for _, a := range aftersOf(p) {
-				for _, mode := range []string{"shutdown", "expire-close", "close"} {
+				for _, mode := range []string{"shutdown", "expire-close", "close", "close-while-shutdown"} {
 					if a == "stay" && mode == "shutdown" {
 						continue // would wait for ever
 					}
@@ -645,7 +666,7 @@ func genScenarios(tier string, r *rng.R) []scenario {
 						out = append(out, scenario{
 							Name: fmt.Sprintf("one/%d/%s/%s/%s/v%v", stackN, p, a, mode, van), PP: pp, TLS: tl,
 							Conns: []connPlan{{Phase: p, After: a, Vanish: van}}, Mode: mode, Order: []int{0},
-							CloseListener: mode != "close" && a != "stay",
+							CloseListener: mode != "close" && mode != "close-while-shutdown" && a != "stay",
 						})
 					}
 				}
@@ -691,9 +712,9 @@ func genScenarios(tier string, r *rng.R) []scenario {
 		}
 		switch {
 		case stay:
-			sc.Mode = []string{"expire-close", "expire-close", "close"}[r.Intn(3)]
+			sc.Mode = []string{"expire-close", "expire-close", "close", "close-while-shutdown"}[r.Intn(4)]
 		default:
-			sc.Mode = []string{"shutdown", "shutdown", "expire-close", "close"}[r.Intn(4)]
+			sc.Mode = []string{"shutdown", "shutdown", "expire-close", "close", "close-while-shutdown"}[r.Intn(5)]
 		}
 		sc.CloseListener = r.Chance(1, 2)
 		if !sc.CloseListener {
